@@ -922,8 +922,295 @@ fn scaled_fit(i: usize, small: bool, rng: &mut Rng, rep: &mut Report) {
     one_fit(rep, &c);
 }
 
+// ---------------------------------------------------------------------------------------------
+// responses at absolute scales far from 1 (stream 8)
+//
+// "responses = polynomial + noise of any scale": nothing in the quantifier ties the responses to the
+// magnitude 1 — charges in coulomb (1e-19), masses in kilogram (1e-27), counts per year (1e+12) are data sets
+// like any other. The least-squares polynomial is linear in y: the minimiser of ||y·s − V c|| is s times the
+// minimiser of ||y − V c||. Case i: degree = (i/6) mod 7, abscissa kind = (i/6 + i/42) mod 4 (the main workload's kinds),
+// scale class = i mod 6:
+//   tiny / small / large / huge : the main workload's data set, y multiplied by a power of two such that
+//                                 max|y| lands in 2^-960..2^-400 / 2^-400..2^-30 / 2^30..2^400 / 2^400..2^900
+//   power-of-ten                : y multiplied by 10^k, max|y| in 1e-290..1e270 (y·10^k rounded once)
+//   graded-coefficients         : true coefficients t_j·10^-e_j with e_j in 0..12 (some exactly zero), noise
+//                                 none or 1e-12..1 — then multiplied by a power of two of the classes above
+// max|y| stays <= 2^900 so that neither n·2^6·max|y| nor the kappa-amplified intermediate products of ANY
+// normal-equation solver overflow, and >= 2^-960 so that rounding to subnormals (absolute 2^-1075 per
+// operation) stays 2^50 below the bound.
+// Oracle: the unchanged single-fit oracle — every bound in it (orthogonality, RSS excess, perturbations,
+// reproduction, twin distance) is B = rel·||y||, homogeneous of degree one in y. To keep the double-double
+// arithmetic of the oracle itself inside its exponent range (it squares residuals) the returned coefficients
+// and the offered responses are both divided by p = 2^floor(log2 max|y|) — exact — before they are judged.
+// The true coefficients are multiplied by scale/p (a power of two for the binary classes; for 10^k one
+// rounding per coefficient and per response, <= eps·sqrt(kappa)·||y|| in the column-scaled norm, 1/64 of B).
+
+const YSCALE: [&str; 6] = ["yscale:tiny", "yscale:small", "yscale:large", "yscale:huge", "yscale:power-of-ten", "yscale:graded-coefficients"];
+
+/// floor(log2 |v|) of a finite non-zero f64
+fn ilog2(v: f64) -> i32 {
+    let b = v.abs().to_bits();
+    let e = (b >> 52) as i32;
+    if e == 0 {
+        // subnormal
+        -1074 + (63 - (b.leading_zeros() as i32))
+    } else {
+        e - 1023
+    }
+}
+
+/// 2^k for k in -1074..1023, exactly
+fn pow2(k: i32) -> f64 {
+    if k >= -1022 {
+        f64::from_bits(((k + 1023) as u64) << 52)
+    } else {
+        f64::from_bits(1u64 << (k + 1074))
+    }
+}
+
+fn yscale_fit(i: usize, small: bool, rng: &mut Rng, rep: &mut Report) {
+    // class fastest, then degree, the abscissa kind shifted from one block of 42 to the next: a Miri run of 6 cases
+    // meets every class, a sanitizer run of 24 four degrees and all kinds; 168 cases meet every (class, degree, kind)
+    let class = YSCALE[i % 6];
+    let base_kind = KINDS[(i / 6 + i / 42) % 4];
+    let mut d = (i / 6) % 7;
+    if base_kind == "integer" {
+        d = d.min(4);
+    }
+    let n = if small { draw_n(rng, d).min(d + 40) } else { draw_n(rng, d) };
+    let int_coef = base_kind == "integer" && d <= 3 && rng.chance(0.5);
+    let mut c = build_case(rng, base_kind, d, n, int_coef);
+    c.exact_int = false;
+    if class == "yscale:graded-coefficients" {
+        let mut e: Vec<i32> = (0..=d).map(|_| rng.int(0, 12) as i32).collect();
+        let lead = rng.usize(0, d);
+        e[lead] = 0;
+        c.truth = c.truth.iter().zip(&e).enumerate().map(|(j, (t, e))| if j != lead && rng.chance(0.15) { 0.0 } else { t * 10f64.powi(-e) }).collect();
+        c.sigma = if rng.chance(0.5) { 0.0 } else { rng.log_range(1e-12, 1.0) };
+        c.y = c.x.iter().map(|&xi| horner_dd(&c.truth, xi).f() + if c.sigma > 0.0 { c.sigma * rng.normal() } else { 0.0 }).collect();
+    }
+    let ymax0 = c.y.iter().fold(0.0f64, |m, v| m.max(v.abs()));
+    let binary_class = |rng: &mut Rng, which: usize| -> i32 {
+        match which {
+            0 => rng.int(-960, -400) as i32,
+            1 => rng.int(-400, -30) as i32,
+            2 => rng.int(30, 400) as i32,
+            _ => rng.int(400, 900) as i32,
+        }
+    };
+    // the offered responses y·s and s itself
+    let (s, exact_scale): (f64, bool) = if ymax0 == 0.0 {
+        (1.0, true) // the zero polynomial: nothing to scale
+    } else {
+        let e0 = ilog2(ymax0);
+        match class {
+            "yscale:tiny" => (pow2(binary_class(rng, 0) - e0), true),
+            "yscale:small" => (pow2(binary_class(rng, 1) - e0), true),
+            "yscale:large" => (pow2(binary_class(rng, 2) - e0), true),
+            "yscale:huge" => (pow2(binary_class(rng, 3) - e0), true),
+            "yscale:graded-coefficients" => {
+                let w = rng.usize(0, 3);
+                (pow2(binary_class(rng, w) - e0), true)
+            }
+            _ => {
+                // 10^k with max|y|·10^k in 1e-290..1e270, |k| >= 10
+                let l0 = ymax0.log10();
+                let (klo, khi) = ((-290.0 - l0).ceil() as i32, (270.0 - l0).floor() as i32);
+                let k = if rng.bool() { rng.int(klo.min(-10) as i64, -10) as i32 } else { rng.int(10, khi.max(10) as i64) as i32 };
+                (10f64.powi(k), false)
+            }
+        }
+    };
+    let y_off: Vec<f64> = c.y.iter().map(|v| v * s).collect();
+    let ymax = y_off.iter().fold(0.0f64, |m, v| m.max(v.abs()));
+    let p = if ymax > 0.0 { pow2(ilog2(ymax)) } else { 1.0 };
+    // the judged data set: (x, y_off / p), an exact image of what the library was given
+    let ratio = s / p; // a power of two for the binary classes, 10^k / 2^e (one rounding) otherwise
+    let judged = Case { kind: class, d, x: c.x.clone(), y: y_off.iter().map(|v| v / p).collect(), truth: c.truth.iter().map(|t| t * ratio).collect(), sigma: c.sigma * ratio, exact_int: false, unit: 1.0 };
+    let noise = if judged.sigma == 0.0 { "exact" } else { "noisy" };
+    let regime = format!("fit:{}:{}", class, noise);
+    rep.case(&regime);
+    rep.seen(class, 1);
+    rep.seen(&format!("yscale:deg={}", d), 1);
+    rep.seen(&format!("yscale:abscissae:{}", base_kind), 1);
+    if ymax > 0.0 {
+        let e = ilog2(ymax);
+        rep.seen(if e < -600 { "yscale:max|y|<2^-600" } else if e < -52 { "yscale:max|y|=2^-600..2^-52" } else if e < 0 { "yscale:max|y|=2^-52..1" } else if e <= 600 { "yscale:max|y|=1..2^600" } else { "yscale:max|y|>2^600" }, 1);
+        if ymax < f64::EPSILON {
+            rep.seen("yscale:all-responses-below-eps", 1);
+        }
+    }
+    rep.distinct(Hasher::new().s(class).u(d as u64).u(n as u64).f(s).f(c.x[0]).f(y_off[0]).finish(), d >= 1 && c.sigma > 0.0 && n > d + 1);
+    let fitted = guard(|| {
+        let mut model = PolynomialRegressor::new(d);
+        model.fit(&c.x, &y_off);
+        model.coef
+    });
+    let raw = fitted.clone().ok();
+    let hj = json!({"responses_offered_to_fit": jf(&y_off), "scale_applied_to_the_unit-scale_responses": s, "exact_power_of_two": exact_scale, "judged_after_dividing_responses_and_coefficients_by": p,
+                    "coef_returned": raw.as_ref().map(|v| jf(v))});
+    check_coef(rep, &judged, &regime, fitted.map(|cf| cf.iter().map(|v| v / p).collect()), Some(&hj));
+    if let Some(raw) = raw {
+        if raw.iter().all(|v| v.is_finite()) {
+            // prediction at the scale the caller works in
+            check_predict(rep, &regime, &raw, &c.x);
+            // evidence: is the fit bitwise homogeneous in y? (not demanded)
+            if exact_scale && s != 1.0 {
+                if let Ok(unit) = guard(|| {
+                    let mut model = PolynomialRegressor::new(d);
+                    model.fit(&c.x, &c.y);
+                    model.coef
+                }) {
+                    if unit.len() == raw.len() && unit.iter().zip(&raw).all(|(u, r)| (u * s).to_bits() == r.to_bits()) {
+                        rep.seen("yscale:bitwise-homogeneous", 1);
+                    }
+                }
+            }
+        }
+    }
+}
+
+// ---------------------------------------------------------------------------------------------
+// several fits on one thread over shared abscissae (stream 9)
+//
+// The property quantifies over data sets: which fits the thread has made before — with this or another
+// regressor object, at which degree, on which responses — is not part of the quantifier. Callers who choose a
+// degree fit the SAME abscissae again and again: a degree sweep upwards, backward selection from a high
+// degree downwards, many series sampled on one grid, a growing or shrinking window of one series. Case i:
+// order = i mod 5 of {descending, ascending, random, same-degree, prefix-extension}; objects = (i/5) mod 2 of
+// {a new regressor per fit, ONE regressor whose public coef field is resized to the next degree}; maximal
+// degree = (i/10) mod 7 (at least 1); one abscissa vector of the main workload's kinds; 3..6 fits, each with
+// responses of its own (polynomial of that degree + noise); prefix-extension: every fit takes a leading
+// part x[..n_t] of the shared vector (n_t random, not below degree+1 distinct values), degrees random.
+// All fits of a case run in sequence on ONE thread spawned for the case. Every fit is then repeated as the
+// first library call of a thread spawned for it alone: the two coefficient vectors must agree bit for bit
+// (`C14.history.same_as_first_call_on_fresh_thread` — the fit is a function of degree, x and y; the library
+// uses no randomness and no parallel reduction in this path), and the fit made inside the history gets the
+// full single-fit oracle next to the fresh-thread fit (signed `assertion|thread-history:<order>` when only
+// the fit inside the history fails).
+
+const ORDERS: [&str; 5] = ["descending", "ascending", "random", "same-degree", "prefix-extension"];
+
+fn thread_history_case(i: usize, small: bool, rng: &mut Rng, rep: &mut Report) {
+    let order = ORDERS[i % 5];
+    let one_object = (i / 5) % 2 == 1;
+    let dmax = ((i / 10) % 7).max(1);
+    let (kind, _) = refit_kind(rng, dmax);
+    let n = if small { draw_n(rng, dmax).min(dmax + 8) } else { draw_n(rng, dmax).min(400) }.max(dmax + 2);
+    let shared = build_case(rng, kind, dmax, n, false);
+    let x = shared.x;
+    let len = if small { 3 } else { rng.usize(3, 6) };
+    // degrees of the successive fits
+    let degrees: Vec<usize> = match order {
+        "descending" | "ascending" => {
+            let mut all: Vec<usize> = (0..=dmax).collect();
+            rng.shuffle(&mut all);
+            all.truncate(len.min(dmax + 1).max(2));
+            all.sort_unstable();
+            if order == "descending" {
+                all.reverse();
+            }
+            all
+        }
+        "same-degree" => vec![dmax; len],
+        _ => (0..len).map(|_| rng.usize(0, dmax)).collect(),
+    };
+    // the data set of every fit
+    let cases: Vec<Case> = degrees
+        .iter()
+        .map(|&d| {
+            let mut nt = n;
+            if order == "prefix-extension" {
+                nt = rng.usize(d + 1, n);
+                if n_distinct(&x[..nt]) < d + 1 {
+                    nt = n;
+                }
+            }
+            let xt = x[..nt].to_vec();
+            let truth: Vec<f64> = (0..=d).map(|_| rng.range(-3.0, 3.0)).collect();
+            let sigma = if rng.chance(0.3) { 0.0 } else { rng.log_range(1e-8, 1e4) };
+            let y: Vec<f64> = xt.iter().map(|&xi| horner_dd(&truth, xi).f() + if sigma > 0.0 { sigma * rng.normal() } else { 0.0 }).collect();
+            Case { kind, d, x: xt, y, truth, sigma, exact_int: false, unit: 1.0 }
+        })
+        .collect();
+    let regime = format!("thread-history:{}", order);
+    // the history: all fits in sequence on one thread of its own
+    let in_history: Option<Vec<Result<Vec<f64>, String>>> = std::thread::scope(|s| {
+        s.spawn(|| {
+            let mut shared_model = PolynomialRegressor::new(degrees[0]);
+            cases
+                .iter()
+                .map(|c| {
+                    guard(|| {
+                        if one_object {
+                            shared_model.coef = vec![0.0; c.d + 1];
+                            shared_model.fit(&c.x, &c.y);
+                            shared_model.coef.clone()
+                        } else {
+                            let mut m = PolynomialRegressor::new(c.d);
+                            m.fit(&c.x, &c.y);
+                            m.coef
+                        }
+                    })
+                })
+                .collect()
+        })
+        .join()
+        .ok()
+    });
+    let in_history = match in_history {
+        Some(v) => v,
+        None => {
+            let seed = rep.case_seed;
+            rep.inconclusive(format!("C14: harness thread of a thread-history case died (case_seed {})", seed));
+            return;
+        }
+    };
+    rep.seen(if one_object { "thread-history:one-object-coef-resized" } else { "thread-history:new-object-per-fit" }, 1);
+    for (t, c) in cases.iter().enumerate() {
+        // the same fit as the first library call of a thread of its own
+        let fresh: Option<Result<Vec<f64>, String>> = std::thread::scope(|s| {
+            s.spawn(|| {
+                guard(|| {
+                    let mut m = PolynomialRegressor::new(c.d);
+                    m.fit(&c.x, &c.y);
+                    m.coef
+                })
+            })
+            .join()
+            .ok()
+        });
+        let fresh = match fresh {
+            Some(v) => v,
+            None => {
+                let seed = rep.case_seed;
+                rep.inconclusive(format!("C14: harness thread of a fresh-thread twin died (case_seed {})", seed));
+                return;
+            }
+        };
+        rep.case(&regime);
+        if t > 0 {
+            let (dp, np) = (cases[t - 1].d, cases[t - 1].x.len());
+            rep.seen(if c.d < dp { "thread-history:degree-drops" } else if c.d > dp { "thread-history:degree-rises" } else { "thread-history:degree-stays" }, 1);
+            rep.seen(if c.x.len() < np { "thread-history:n-shrinks" } else if c.x.len() > np { "thread-history:n-grows" } else { "thread-history:n-same" }, 1);
+        }
+        rep.distinct(Hasher::new().s(&regime).u(t as u64).u(c.d as u64).u(c.x.len() as u64).f(c.sigma).f(c.x[0]).f(c.y[0]).finish(), c.d >= 1 && c.sigma > 0.0 && c.x.len() > c.d + 1);
+        let hj = json!({"earlier_fits_on_this_thread_oldest_first": cases[..t].iter().map(|e| json!({"degree": e.d, "n": e.x.len(), "x": "the leading n shared abscissae", "y": jf(&e.y)})).collect::<Vec<_>>(),
+                        "shared_abscissae": jf(&x), "objects": if one_object { "one regressor, coef field resized to degree+1 before every fit" } else { "a new regressor per fit" },
+                        "twin": "the same fit made as the first library call of a fresh thread"});
+        let fitted = in_history[t].clone();
+        if let (Ok(a), Ok(b)) = (&fitted, &fresh) {
+            let same = a.len() == b.len() && a.iter().zip(b).all(|(p, q)| p.to_bits() == q.to_bits());
+            rep.check("C14.history.same_as_first_call_on_fresh_thread", &regime, same, || {
+                json!({"degree": c.d, "n": c.x.len(), "kind": c.kind, "x": jf(&c.x), "y": jf(&c.y), "history": hj, "coef_inside_history": jf(a), "coef_first_call_on_fresh_thread": jf(b)})
+            });
+        }
+        judge_against_twin(rep, &regime, "thread-history", c, fitted, fresh, &hj);
+    }
+}
+
 pub fn run(cfg: &Cfg, rep: &mut Report) {
-    rep.rule = "case i: abscissa kind = i mod 4 (uniform, clustered, Chebyshev, integer lattice in [-2,2]), degree = (i/4) mod 7 (integer lattice: <= 4), n in {d+1, d+2..30, 30..300, 300..2000}, y = polynomial(coef in [-3,3]) + sigma*normal with sigma = 0 (20%) or log-uniform 1e-8..1e4; exact-integer cases: lattice abscissae, integer coefficients in -5..5, degree <= 3, no noise. Then direct predict cases with arbitrary distinct coefficients. Then refit histories on ONE regressor object (degree = i mod 7): fit A then B with another n; fit A, B, C; public coef field preset then fit — each refit gets the full single-fit oracle and is compared with a fresh regressor. Then the size sweep: every degree 0..6 with EVERY n in degree+1..2000 (quick: abscissa kind rotating with n; thorough: all four kinds), fresh regressor, cheap f64 oracle (no panic, shape, finite, orthogonality within 2B). Then histories on a thread of their own: twin fit of a valid data set, 1..3 calls of fit outside the quantifier (case i: degree = i mod 7, class = (i/7) mod 7 of {x longer, y longer, empty y, empty x, fewer than d+1 points, equal abscissae, NaN}, same / new object by (i/49) mod 2), then the valid data set again — full oracle and agreement with the twin. Then every case fitted outside any rayon pool and inside pools of 1, 2, 33, 48, 64, 128 threads (n: main distribution | uniform 1024..2000 | uniform 300..2000 | 2^k-1..2^k+1, k = 4..10) — full oracle on every pool fit and agreement with the outside fit. Then abscissae at small absolute scales (case i: degree = i mod 7, shape = (i/7) mod 4 of {uniform, Chebyshev, dyadic lattice m/8, one-sided uniform on [0,2]} times unit = 2^-k, k uniform in 1..200/degree; responses = polynomial in x/unit with coefficients in [-3,3] (lattice: integers in -5..5, exactly representable data) + sigma*normal, sigma = 0 (30 %, lattice 60 %) or log-uniform 1e-8..1e4) with the full single-fit oracle, whose bounds live on the column-scaled problem. non-trivial = degree >= 1, noise > 0 and n > d+1 (optimality rather than interpolation); distinct by (kind, degree, n, sigma, first/last point)".into();
+    rep.rule = "case i: abscissa kind = i mod 4 (uniform, clustered, Chebyshev, integer lattice in [-2,2]), degree = (i/4) mod 7 (integer lattice: <= 4), n in {d+1, d+2..30, 30..300, 300..2000}, y = polynomial(coef in [-3,3]) + sigma*normal with sigma = 0 (20%) or log-uniform 1e-8..1e4; exact-integer cases: lattice abscissae, integer coefficients in -5..5, degree <= 3, no noise. Then direct predict cases with arbitrary distinct coefficients. Then refit histories on ONE regressor object (degree = i mod 7): fit A then B with another n; fit A, B, C; public coef field preset then fit — each refit gets the full single-fit oracle and is compared with a fresh regressor. Then the size sweep: every degree 0..6 with EVERY n in degree+1..2000 (quick: abscissa kind rotating with n; thorough: all four kinds), fresh regressor, cheap f64 oracle (no panic, shape, finite, orthogonality within 2B). Then histories on a thread of their own: twin fit of a valid data set, 1..3 calls of fit outside the quantifier (case i: degree = i mod 7, class = (i/7) mod 7 of {x longer, y longer, empty y, empty x, fewer than d+1 points, equal abscissae, NaN}, same / new object by (i/49) mod 2), then the valid data set again — full oracle and agreement with the twin. Then every case fitted outside any rayon pool and inside pools of 1, 2, 33, 48, 64, 128 threads (n: main distribution | uniform 1024..2000 | uniform 300..2000 | 2^k-1..2^k+1, k = 4..10) — full oracle on every pool fit and agreement with the outside fit. Then abscissae at small absolute scales (case i: degree = i mod 7, shape = (i/7) mod 4 of {uniform, Chebyshev, dyadic lattice m/8, one-sided uniform on [0,2]} times unit = 2^-k, k uniform in 1..200/degree; responses = polynomial in x/unit with coefficients in [-3,3] (lattice: integers in -5..5, exactly representable data) + sigma*normal, sigma = 0 (30 %, lattice 60 %) or log-uniform 1e-8..1e4) with the full single-fit oracle, whose bounds live on the column-scaled problem. Then responses at absolute scales far from 1 (case i: class = i mod 6, degree = (i/6) mod 7, abscissa kind = (i/6 + i/42) mod 4; classes {max|y| in 2^-960..2^-400, 2^-400..2^-30, 2^30..2^400, 2^400..2^900 by an exact power of two; y*10^k with max|y| in 1e-290..1e270; true coefficients graded by 10^-e_j, e_j in 0..12, some exactly zero, times a power of two}) judged by the single-fit oracle after dividing responses and coefficients by one power of two. Then sequences of 3..6 fits on ONE thread over shared abscissae (case i: order = i mod 5 of {degrees descending, ascending, random, all equal, leading parts x[..n_t] of the shared vector}, objects = (i/5) mod 2 of {new regressor per fit, one regressor with coef resized}, maximal degree = (i/10) mod 7), each fit with its own responses, compared bit for bit with the same fit made as the first library call of a fresh thread and judged by the single-fit oracle. non-trivial = degree >= 1, noise > 0 and n > d+1 (optimality rather than interpolation); distinct by (kind, degree, n, sigma, first/last point)".into();
     rep.assume("at least degree+1 distinct abscissae (ensured by the generator)");
     rep.assume("abscissae in [-2,2], finite responses; cases whose column-scaled Gram matrix has (64*eps + 4*gamma_n)*kappa > 1e-3 are counted as vacuous (only shape, finiteness of predict and Horner evaluation are checked there)");
     rep.assume("optimality bounds are stated relative to ||y|| (a-priori error of normal equations), not relative to ||r|| as DESIGN wrote: the latter is unsound for noise-free data");
@@ -1046,6 +1333,47 @@ pub fn run(cfg: &Cfg, rep: &mut Report) {
         for l in ["scaled:unit=2^-1..2^-10", "scaled:unit=2^-11..2^-40", "scaled:unit<2^-40", "scaled:grading<2^-26", "scaled:grading=2^-26..2^-100", "scaled:grading>2^-100"] {
             rep.require(l, 1);
         }
+    }
+    // responses at absolute scales far from 1 (stream 8)
+    rep.assume("responses on any absolute scale with 2^-960 <= max|y| <= 2^900 are inside the quantifier ('noise of any scale'); beyond 2^900 the products n*2^6*max|y| and the kappa-amplified intermediates of a normal-equation solver may overflow, which the property does not exclude, so such data are not generated. The least-squares polynomial is linear in y and every bound of the oracle is B = rel*||y||, homogeneous in y: responses and returned coefficients are divided by the same power of two before they are judged (exact), so the verdict at scale s is the verdict the unit-scale oracle gives");
+    let ny = cfg.pick(504, 8400, 6);
+    par_cases(cfg, rep, 8, ny, |i, rng: &mut Rng, rep| yscale_fit(i, cfg.miri(), rng, rep));
+    for k in YSCALE {
+        rep.require(k, 1);
+        if !cfg.lite {
+            rep.require(&format!("checked:{}", k), 1);
+            rep.require(&format!("fit:{}:exact", k), 1);
+            rep.require(&format!("fit:{}:noisy", k), 1);
+        }
+    }
+    if !cfg.lite {
+        for d in 0..7 {
+            rep.require(&format!("yscale:deg={}", d), 1);
+        }
+        for k in KINDS {
+            rep.require(&format!("yscale:abscissae:{}", k), 1);
+        }
+        for l in ["yscale:max|y|<2^-600", "yscale:max|y|=2^-600..2^-52", "yscale:max|y|=1..2^600", "yscale:max|y|>2^600", "yscale:all-responses-below-eps"] {
+            rep.require(l, 1);
+        }
+    }
+    // several fits on one thread over shared abscissae (stream 9)
+    rep.assume("which fits a thread has made before (degrees, responses, regressor objects) is outside the quantifier: every fit of a sequence made on ONE thread over shared abscissae (degrees descending / ascending / random / equal, leading parts of one abscissa vector) must give the least-squares polynomial of its own data set and — the library using neither randomness nor parallel reductions in fit — the same bits as the same fit made as the first library call of a fresh thread");
+    let nh = cfg.pick(210, 4200, 5);
+    par_cases(cfg, rep, 9, nh, |i, rng: &mut Rng, rep| thread_history_case(i, cfg.miri(), rng, rep));
+    for o in ORDERS {
+        rep.require(&format!("thread-history:{}", o), 1);
+    }
+    rep.require("thread-history:degree-drops", 1);
+    rep.require("thread-history:degree-rises", 1);
+    rep.require("thread-history:new-object-per-fit", 1);
+    if !cfg.lite {
+        rep.require("thread-history:compared-with-fresh", 1);
+        rep.require("thread-history:degree-stays", 1);
+        rep.require("thread-history:n-shrinks", 1);
+        rep.require("thread-history:n-grows", 1);
+        rep.require("thread-history:n-same", 1);
+        rep.require("thread-history:one-object-coef-resized", 1);
     }
     for d in 0..7usize {
         let per_pass = if cfg.lite { 1 } else { (2000 - d) as u64 };
